@@ -6,9 +6,17 @@ failure (including a non-mapping example) pushes a message that mentions the exa
 NO-PANIC: validate contains no unwrap/expect/index/panic site.
 """
 import facts
+import panic
 import q
-from facts import walk, walk_with_path, peel, call_is, unblock, variant_of, lit
+from facts import walk, walk_with_path, peel, call_is, unblock, variant_of, lit, strip_ref
 from show import show
+
+
+def q_strip_not(c):
+    c = peel(c)
+    while c.get("k") == "Unary" and c["op"] == "Not":
+        c = peel(c["arg"])
+    return c
 
 
 def run(rep):
@@ -37,8 +45,12 @@ def run(rep):
     rep.check(srcs == ["self.true_positives", "self.true_negatives"], "T-VALIDATE", "T-VALIDATE/loops", v.sp, "exactly two top-level loops over true_positives then true_negatives", str(srcs))
     errs = [s for s in body.get("stmts", []) if s["k"] == "Let" and s["pat"].get("k") == "Bind" and s["pat"].get("ty") == "std::vec::Vec<std::string::String>"]
     eid = errs[0]["pat"]["id"] if errs else None
+
+    def is_push(x, test_id=None):
+        return call_is(x, "::push") and q.base_var(x["args"][0]) == eid and (test_id is None or any(y.get("k") == "Var" and y["id"] == test_id for y in walk(x["args"][1])))
+
     for l, which, negated in zip(loops, ("true_positives", "true_negatives"), (True, False)):
-        test_id = l["pat"].get("id") if l["pat"].get("k") == "Bind" else None
+        test_id = strip_ref(q.loop_over(l)[1]).get("id")
         solves = [(n, path) for n, path in walk_with_path(l["body"]) if n.get("k") == "Call" and n.get("local") and not (n.get("fn") or "").startswith("error::")]
         key = "T-VALIDATE/" + which
         ok1 = len(solves) == 1 and solves[0][0]["fn"] == mcallee and show(solves[0][0]["args"][0]) == marg0
@@ -46,78 +58,95 @@ def run(rep):
         if not ok1:
             continue
         call, path = solves[0]
-        exits = [x.get("k") for x in walk(l["body"]) if x.get("k") in ("Continue", "Break", "Return")]
-        rep.check(exits == ["Continue"], "T-VALIDATE", key + "/every-example-evaluated", l["sp"],
-                  "the only way to skip an example is the malformed-example branch (no other continue/break/return in the loop)", str(exits))
-        lb = facts.unblock(l["body"])
-        nst = len(lb["stmts"]) + (1 if lb.get("expr") else 0) if lb.get("k") == "Block" else 1
-        rep.check(nst == 2, "T-VALIDATE", key + "/loop-body", l["sp"], "the loop body is: take the example's mapping (or report it), then compare the verdict", "%d statements" % nst)
-        # document argument: the mapping obtained from this loop's example
-        darg = peel(call["args"][1])
-        from origin import Origins
-        O = Origins(v, rule_params=("self",), doc_params=())
-        # walk back: mapping must be bound from test.as_mapping()
-        bound_from = None
-        for n in walk(l["body"]):
-            if n.get("k") == "Block":
-                for s in n["stmts"]:
-                    if s["k"] == "Let" and s.get("init") and any(b[1] == q.var_id(darg) for b in facts.pat_binds(s["pat"])):
-                        bound_from = s
+        # every cycle either evaluates the example or reports it; nothing leaves the loop early
+        fl = q.flow(l["body"], lambda x: x is call or is_push(x))
+        exits = sorted({ex for ex, _ in fl})
+        rep.check(all(c for ex, c in fl if ex in ("fall", "continue")) and not ({"break", "return"} & set(exits)), "T-VALIDATE", key + "/every-example-evaluated", l["sp"],
+                  "every pass through the loop body evaluates the example or reports it as malformed; the loop is never left early", str(sorted(fl)))
+        pushes = [x for x in walk(l["body"]) if is_push(x)]
+        rep.check(len(pushes) == 2 and all(is_push(x, test_id) for x in pushes), "T-VALIDATE", key + "/loop-body", l["sp"], "two reports per loop (malformed example, wrong verdict), each naming the example", "%d pushes" % len(pushes))
+        # document argument: the mapping obtained from this loop's own example
+        did = q.base_var(call["args"][1], l["body"])
+        ams = [x for x in walk(l["body"]) if call_is(x, "::as_mapping") and q.base_var(x["args"][0]) == test_id]
         okd = False
-        det = show(call["args"][1])
-        if bound_from is not None:
-            init = peel(bound_from["init"])
-            okd = call_is(init, "::as_mapping") and q.var_id(init["args"][0]) == test_id
-            det = show(bound_from["init"])
-            # the else branch must report and skip, not panic
-            els = bound_from.get("else")
-            okelse = bool(els) and any(call_is(x, "::push") and q.var_id(x["args"][0]) == eid and any(y.get("k") == "Var" and y["id"] == test_id for y in walk(x["args"][1])) for x in walk(els)) \
-                and any(x.get("k") == "Continue" for x in walk(els)) and not any(call_is(x, "panicking::") for x in walk(els))
-            rep.check(okelse, "T-VALIDATE", key + "/malformed-reported", bound_from["sp"], "a non-mapping example pushes an error naming it and continues", show(els)[:100] if els else "no else branch")
-        elif call_is(darg, "::unwrap") or call_is(darg, "::expect"):
-            rep.bad("T-VALIDATE", key + "/malformed-reported", call["sp"], "a non-mapping example is reported, not unwrapped", show(darg)[:80])
+        if len(ams) == 1:
+            for pat in q.all_patterns(l["body"]):
+                if any(b[1] == did for b in facts.pat_binds(pat)):
+                    okd = True
+            # `?`-normalised or let-bound through expect would be a different (panicking / returning) handling: require an explicit branch
+            fb = q.failure_branch(l["body"], ams[0])
+            okelse = isinstance(fb, dict) and any(is_push(x, test_id) for x in walk(fb)) and not any(facts._panics(x) is not None for x in walk(fb) if x.get("k") == "Call") \
+                and all(ex in ("fall", "continue") for ex, _ in q.flow(fb, lambda x: False))
+            rep.check(okelse, "T-VALIDATE", key + "/malformed-reported", ams[0]["sp"], "a non-mapping example pushes an error naming it and moves on", show(fb)[:100] if isinstance(fb, dict) else str(fb))
         else:
-            rep.bad("T-VALIDATE", key + "/malformed-reported", call["sp"], "a non-mapping example is reported", "no let-else on as_mapping")
-        rep.check(okd, "T-VALIDATE", key + "/document", call["sp"], "the evaluated document is this example's own mapping", det)
-        # polarity: the enclosing If condition is exactly solve(..) or !solve(..)
-        ifs = [p for p in path if p.get("k") == "If" and any(x is call for x in walk(p["cond"]))]
+            rep.bad("T-VALIDATE", key + "/malformed-reported", call["sp"], "a non-mapping example is reported", "%d as_mapping calls on the example" % len(ams))
+        rep.check(okd and len(ams) == 1, "T-VALIDATE", key + "/document", call["sp"], "the evaluated document is this example's own mapping", show(call["args"][1]))
+        # polarity: the If that tests the verdict
+        ifs = [p for p in walk(l["body"]) if p.get("k") == "If" and (any(x is call for x in walk(p["cond"])) or (q.var_id(q_strip_not(p["cond"])) is not None and q.let_init(l["body"], q.var_id(q_strip_not(p["cond"]))) is not None and any(x is call for x in walk(q.let_init(l["body"], q.var_id(q_strip_not(p["cond"])))))))]
         okp = False
         detp = "not under an if"
         if len(ifs) == 1:
             c = peel(ifs[0]["cond"])
             detp = show(c)[:80]
-            if negated:
-                okp = c.get("k") == "Unary" and c["op"] == "Not" and peel(c["arg"]) is call
-            else:
-                okp = c is call
-            pushes = [x for x in walk(ifs[0]["then"]) if call_is(x, "::push") and q.var_id(x["args"][0]) == eid]
-            okm = len(pushes) == 1 and any(y.get("k") == "Var" and y["id"] == test_id for y in walk(pushes[0]["args"][1])) and not ifs[0].get("else")
-            rep.check(okm, "T-VALIDATE", key + "/failure-reported", ifs[0]["sp"], "the failing branch pushes one message that mentions the example", show(ifs[0]["then"])[:80])
+            neg = False
+            while c.get("k") == "Unary" and c["op"] == "Not":
+                neg = not neg
+                c = peel(c["arg"])
+            is_verdict = c is call or (c.get("k") == "Var" and q.resolve(l["body"], c) is call)
+            then_p = any(is_push(x) for x in walk(ifs[0]["then"]))
+            else_p = ifs[0].get("else") is not None and any(is_push(x) for x in walk(ifs[0]["else"]))
+            if is_verdict and then_p != else_p:
+                # report_when_true: the report is made when solve(..) is true
+                report_when_true = (then_p and not neg) or (else_p and neg)
+                okp = report_when_true == (not negated)
+            pb = ifs[0]["then"] if then_p else ifs[0].get("else")
+            okm = pb is not None and len([x for x in walk(pb) if is_push(x, test_id)]) == 1 and then_p != else_p
+            rep.check(okm, "T-VALIDATE", key + "/failure-reported", ifs[0]["sp"], "the failing branch pushes one message that mentions the example", show(pb)[:80] if pb else "-")
         rep.check(okp, "T-VALIDATE", key + "/polarity", call["sp"], "%s fails iff %ssolve(..)" % (which, "!" if negated else ""), detp)
-    # aggregation
-    tail_ifs = [s["e"] for s in body.get("stmts", []) if s["k"] == "Expr" and s["e"].get("k") == "If"]
-    okagg = False
-    det = ""
-    if len(tail_ifs) == 1:
-        c = peel(tail_ifs[0]["cond"])
-        det = show(c)
-        isneg = c.get("k") == "Unary" and c["op"] == "Not" and call_is(peel(c["arg"]), "::is_empty") and q.var_id(peel(c["arg"])["args"][0]) == eid
-        rets = [x for x in walk(tail_ifs[0]["then"]) if x.get("k") == "Return"]
-        okret = len(rets) == 1 and facts.adt_is(peel(rets[0]["value"]), "Result", "Err") and "Kind::Validation" in show(rets[0]["value"]) and any(y.get("k") == "Var" and y["id"] == eid for y in walk(rets[0]["value"]))
-        okagg = isneg and okret and not tail_ifs[0].get("else")
-    rep.check(okagg, "T-VALIDATE", "T-VALIDATE/aggregate", v.sp, "Err(Validation with all messages) iff errors is non-empty", det)
-    fin = body.get("expr")
-    okfin = bool(fin) and facts.adt_is(peel(fin), "Result", "Ok") and lit(peel(fin)["fields"][0]["e"]) == ("bool", True)
-    rep.check(okfin, "T-VALIDATE", "T-VALIDATE/ok-true", v.sp, "otherwise Ok(true)", show(fin) if fin else "-")
-    # order: loops, then aggregation, nothing else that returns early
-    early = [x for x in walk(body) if x.get("k") == "Return"]
-    rep.check(len(early) == 1, "T-VALIDATE", "T-VALIDATE/no-early-return", v.sp, "the only early return is the aggregated error", str(len(early)))
+    # aggregation: Err(Validation with the messages) iff errors is non-empty, else Ok(true)
+    leaves = q.result_leaves(body)
+
+    def emptiness(leaf, path):
+        """what is known about errors.is_empty() where this result is produced: True / False / None"""
+        for e in q.context(path, leaf):
+            if e[0] == "if":
+                c = peel(e[1])
+                neg = False
+                while c.get("k") == "Unary" and c["op"] == "Not":
+                    neg = not neg
+                    c = peel(c["arg"])
+                if call_is(c, "::is_empty") and q.base_var(c["args"][0]) == eid:
+                    return e[2] != neg
+        return None
+    oks = [(l_, p_) for l_, p_ in leaves if facts.adt_is(peel(l_), "Result", "Ok")]
+    ers = [(l_, p_) for l_, p_ in leaves if facts.adt_is(peel(l_), "Result", "Err")]
+    okagg = len(ers) == 1 and len(oks) == 1 and len(leaves) == 2
+    det = "%d Ok / %d Err results" % (len(oks), len(ers))
+    if okagg:
+        el, ep = ers[0]
+        okagg = emptiness(el, ep) is False and "Kind::Validation" in show(el) and any(y.get("k") == "Var" and y["id"] == eid for y in walk(el))
+        det = show(el)[:100]
+    rep.check(okagg, "T-VALIDATE", "T-VALIDATE/aggregate", v.sp, "Err(Validation with all messages) is produced exactly where errors is known to be non-empty", det)
+    okfin = False
+    if len(oks) == 1:
+        ol, op = oks[0]
+        okfin = lit(peel(peel(ol)["fields"][0]["e"])) == ("bool", True)
+        em = emptiness(ol, op)
+        if em is None:
+            # early-return form: `if !errors.is_empty() { return Err(..) }` precedes the tail, and that branch always returns
+            guards = [s["e"] for s in body.get("stmts", []) if s["k"] == "Expr" and s["e"].get("k") == "If" and ers and q.contains(s["e"], ers[0][0])]
+            em = bool(guards) and all(ex == "return" for ex, _ in q.flow(guards[0]["then"], lambda x: False)) and emptiness(ers[0][0], ers[0][1]) is False
+        okfin = okfin and em is True
+    rep.check(okfin, "T-VALIDATE", "T-VALIDATE/ok-true", v.sp, "Ok(true) is produced only where errors is known to be empty", show(oks[0][0]) if oks else "-")
+    # nothing returns before both loops ran
+    early = [x for x in walk(body) if x.get("k") in ("Return", "Try") and any(q.contains(l, x) for l in loops)]
+    rep.check(not early, "T-VALIDATE", "T-VALIDATE/no-early-return", v.sp, "no return or `?` inside the loops", str(len(early)))
     # NO-PANIC
     bad = []
     for n in walk(body):
         if n.get("k") == "Call" and n.get("fn") and not n.get("exp"):
             fn = n["fn"]
-            if fn.endswith("::unwrap") or fn.endswith("::expect") or "panicking" in fn or fn.endswith("Index::index"):
+            if fn.endswith("::unwrap") or fn.endswith("::expect") or "panicking" in fn or fn.endswith(("rt::panic_fmt", "rt::panic_display", "Index::index")):
                 bad.append(show(n)[:60])
         if n.get("k") == "Index":
             bad.append(show(n)[:60])
@@ -131,7 +160,7 @@ def run(rep):
             t = b["term"]
             if t.get("k") == "Assert":
                 masserts.append(t.get("assert"))
-            if t.get("k") == "Call" and t.get("fn") and (t["fn"].endswith("::unwrap") or t["fn"].endswith("::expect") or "panicking" in t["fn"]):
+            if t.get("k") == "Call" and t.get("fn") and any(rx.search(t["fn"]) for _, rx in panic.PANIC_CALLEES):
                 masserts.append(t["fn"])
     rep.check(not masserts, "NO-PANIC", "NO-PANIC/validate-mir", v.sp, "MIR of validate has no assert/unwrap/expect/panic terminator outside cleanup", "; ".join(map(str, masserts)))
     rep.floor("T-VALIDATE", 18)
